@@ -271,6 +271,7 @@ var c17Stmts = []c17Stmt{
 	{"MT", "mart MT {\n\tITEM_1\n\tITEM_2\n}\n", regexp.MustCompile(`^MT$`), true},
 	{"MAP", "mapscripts MAP {\n\tT1: SA\n\tT2 {\n\t\tmsgbox(\"text of MAP\")\n\t\tif (flag(M1)) {\n\t\t\tz\n\t\t}\n\t}\n\tT3 [\n\t\tVAR_1, 0: SB\n\t\tVAR_1, 1 {\n\t\t\tmsgbox(\"shared text\")\n\t\t}\n\t]\n}\n", regexp.MustCompile(`^(MAP|MAP_T\d+(_\d+)*)$`), false},
 	{"SC", "script SC {\n\tbraillemessage(braille\"shared text\")\n\tmsgbox(custom\"text of SA$\")\n\tmsgbox(\"text of SC\")\n}\n", regexp.MustCompile(`^(SC|SC_\d+)$`), false},
+	{"SD", "script SD {\n\tif (flag(D1)) {\n\t\tgoto(SB_9)\n\t}\n\tq\n\tSB_9:\n\tr\n\tSC_7(global):\n\tt\n}\n", regexp.MustCompile(`^(SD|SD_\d+|SB_9|SC_7)$`), false},
 	{"RAW", "raw `\nRawLabel:\n\t.byte 1\n`\n", nil, true},
 	{"CONST", "const UNUSED_K = 77\n", nil, true},
 }
@@ -287,7 +288,10 @@ func c17Section(out string, st c17Stmt) string {
 		isLabel := !strings.HasPrefix(l, "\t") && strings.HasSuffix(l, ":") && !strings.HasPrefix(l, "#")
 		if isLabel {
 			name := strings.TrimRight(l, ":")
-			if st.owned.MatchString(name) {
+			if !in && name != st.name {
+				// the section starts at the statement's own label (a label of another statement may be named like one of this
+				// statement's sub-labels)
+			} else if st.owned.MatchString(name) {
 				if !in {
 					// a mart's .align and a line marker precede the label
 					if i > 0 && lines[i-1] == "\t.align 2" {
